@@ -260,8 +260,12 @@ Section Reader.
         seek_indexed_loop (blocks_fuel r) r idx1 typ want
     end.
 
-  Definition empty_key (typ : N) : bytes :=
-    if typ =? typ_log then log_key_of [] 0 else [].
+  (* the key that makes Reader.seek start at the beginning of the section: the
+     empty key of ref / obj / index records.  For logs there is none: the key
+     of a zero LogRecord is not the smallest log key, and the shortcut is not
+     taken (fix: commit "SeekLog of the zero LogRecord key"); a log key is never
+     empty, so the test below never fires for logs. *)
+  Definition empty_key (typ : N) : bytes := [].
 
   (* Reader.seek(rec): None = nil iterator *)
   Definition rd_seek (r : reader) (typ : N) (want : bytes) : res (option titer) :=
